@@ -110,11 +110,12 @@ def sched_blocks(impl):
     return blocks
 
 
-def run_solve(d, tag, inst, release=False, timeout=30, checks=True, pipemodel=False):
-    """Run the pipeline on one instance; returns dict(status, js, impl, perm, outchk, chk, eval)."""
+def run_solve(d, tag, inst, release=False, timeout=30, checks=True, pipemodel=False, entry="server"):
+    """Run the pipeline on one instance; returns dict(status, js, impl, perm, outchk, chk, eval).
+    entry: "server" = server::solve_instance, "internal" = internal::run (the second copy of the stage wiring)."""
     cpath = os.path.join(d, "%s.json" % tag)
     with open(cpath, "w") as f:
-        json.dump({"instance": inst}, f)
+        json.dump({"instance": inst, "entry": entry}, f)
     hout = os.path.join(d, "%s.%s.impl" % (tag, "rel" if release else "dbg"))
     st = lib.run_harness("solve", cpath, hout, release=release, timeout=timeout)
     impl = lib.read_lines(hout)
